@@ -679,7 +679,9 @@ def run(rep, tier, seed):
                           'message': f'{kind} factory raised {type(e).__name__} for an unknown name', 'sig': {'part': 'registry', 'registry': kind}})
     rep.part('registries', components=nreg, comparisons=rn)
     dyn.report_fails(rep, fails, replay)
-    rep.sample({'kind': 'mutation', 'config': 'keydoor.5x5', 'label': 'shape [0,n]', 'path': ['reset_function', 'shape']})
+    _tree = configs.load(dict(configs.all_configs())['keydoor.5x5'])
+    _idx = next(j for j, (lb, p, _) in enumerate(mutations(_tree)) if lb == 'shape [0,n]')
+    rep.sample({'kind': 'mutation', 'config': 'keydoor.5x5', 'index': _idx, 'label': 'shape [0,n]', 'path': ['reset_function', 'shape'], 'seeds': seeds[:1]})
     rep.sample({'kind': 'config', 'config': 'dynamic_obstacles.5x5', 'depth': 3, 'seeds': seeds[:2]})
     rep.exhaustive = False
     rep.assume('the YAML text is parsed by the strict subset loader in /verif/shims/yaml when PyYAML is absent (trusted base)')
